@@ -97,6 +97,14 @@ def configs(thorough=False):
         dict(quad_type='GAUSS', num_nodes=3, QI='IE', do_coll_update=True), 0.05, 0.15)
     add('generic_implicit/heat/single-step', heatNd_unforced, heat, generic_implicit, sdc, 0.05, 0.05)
     add('imex_1st_order/heat_forced/single-step', heatNd_forced, heat, imex_1st_order, sdc, 0.05, 0.05)
+    # --- standard IMEX test problems whose eval_f assigns `f.impl = ...` / `f.expl = ...`
+    try:
+        from pySDC.implementations.problem_classes.FastWaveSlowWave_0D import swfw_scalar
+        from pySDC.implementations.problem_classes.AcousticAdvection_1D_FD_imex import acoustic_1d_imex
+        add('imex_1st_order/swfw_scalar', swfw_scalar, dict(lambda_s=np.array([0.1j]), lambda_f=np.array([1.0j]), u0=1.0), imex_1st_order, sdc, 0.1, 0.3)
+        add('imex_1st_order/acoustic_1d_imex', acoustic_1d_imex, dict(nvars=(2, 32), cs=0.5, cadv=0.1, order_adv=5, waveno=2), imex_1st_order, sdc, 0.01, 0.03)
+    except Exception as e:
+        out.append(('imex_1st_order/swfw+acoustic', e))
     # --- adaptivity / restarts
     add('generic_implicit/vanderpol/adaptivity', vanderpol, dict(mu=5.0, newton_tol=1e-9, newton_maxiter=50, u0=(2.0, 0.0)), generic_implicit, sdc_lu,
         0.2, 0.6, maxiter=3, restol=-1, conv={Adaptivity: {'e_tol': 1e-5}}, hooks=both, mssdc_jac=False)
@@ -201,5 +209,30 @@ def run_config(label, build, rng=None):
     returned_is_live = any(uend is x for x in live)
     if any(np.shares_memory(a, b) for o in live for a in arrays(o) for b in arrays(keep)):
         findings.append(("level data of the finished run shares storage with the caller's u0 (init_step did not copy)", 'u0-aliased', {}))
+    # multi-component meshes held by the levels (u, f, uend, tau) or logged: every component must be a view of the
+    # object's own buffer showing the same values ("one buffer"); a component attribute that was REBOUND
+    # (`f.expl = x`, `f.expl -= x`) instead of written (`f.expl[:] = x`) leaves the buffer stale
+    held = []
+    for S in controller.MS:
+        for L in S.levels:
+            held += [('u[%d]' % i, x) for i, x in enumerate(L.u)] + [('f[%d]' % i, x) for i, x in enumerate(L.f)] + [('uend', L.uend)]
+            held += [('tau[%d]' % i, x) for i, x in enumerate(L.tau)]
+    held += [('logged', obj) for _, obj, _ in log]
+    for where, x in held:
+        comps = getattr(type(x), 'components', None)
+        if not (isinstance(x, np.ndarray) and comps and x.ndim >= 1 and x.shape[0] == len(comps)):
+            continue
+        for i, c in enumerate(comps):
+            v = getattr(x, c)
+            if not (isinstance(v, np.ndarray) and v.shape == x.shape[1:] and (v.size == 0 or np.shares_memory(v, x))
+                    and np.array_equal(np.asarray(v), np.asarray(x)[i], equal_nan=True)):
+                findings.append(('component %r of the %s object %s is detached from the mesh buffer (attribute rebound instead of written): '
+                                 'copies, whole-mesh arithmetic and abs() see stale values' % (c, type(x).__name__, where),
+                                 'component-detached', {'where': where, 'component': c, 'class': type(x).__name__,
+                                                        'instance_dict_keys': sorted(getattr(x, '__dict__', {}).keys())}))
+                break
+        else:
+            continue
+        break
     return dict(label=label, findings=findings, nlogged=nlogged, nsteps=len({m.get('time') for m, _, _ in log}),
                 returned_is_live=returned_is_live, uend_type=type(uend).__name__, Tend=Tend)
